@@ -295,4 +295,5 @@ func runC08(c *Ctx) {
 	c08Mechanics(c)
 	c08Copy(c)
 	c08Snapshot(c)
+	c08ReadPath(c)
 }
